@@ -79,7 +79,44 @@ def mk_not(a):
     return "(not %s)" % a
 
 
+_BAL_CACHE = {}
+
+
 def _balanced(s):
+    r = _BAL_CACHE.get(s)
+    if r is None:
+        r = _balanced_uncached(s)
+        if len(_BAL_CACHE) > 50000:
+            _BAL_CACHE.clear()
+        _BAL_CACHE[s] = r
+    return r
+
+
+_SPECIAL = re.compile(r'[()"]')
+
+
+def _balanced_uncached(s):
+    d = 0
+    instr = False
+    last = len(s) - 1
+    for m in _SPECIAL.finditer(s):
+        ch = m.group()
+        if ch == '"':
+            instr = not instr
+        elif instr:
+            continue
+        elif ch == '(':
+            d += 1
+        else:
+            d -= 1
+            if d == 0 and m.start() != last:
+                return False
+            if d < 0:
+                return False
+    return d == 0
+
+
+def _balanced_slow(s):
     d = 0
     instr = False
     for i, ch in enumerate(s):
@@ -256,8 +293,21 @@ def mk_store(arr, i, v):
     return "(store %s %s %s)" % (arr, i, v)
 
 
+_SPLIT_CACHE = {}
+
+
 def split_top(s):
     """split a space separated sequence of s-expressions at top level"""
+    r = _SPLIT_CACHE.get(s)
+    if r is None:
+        r = tuple(_split_top_uncached(s))
+        if len(_SPLIT_CACHE) > 50000:
+            _SPLIT_CACHE.clear()
+        _SPLIT_CACHE[s] = r
+    return list(r)
+
+
+def _split_top_uncached(s):
     out = []
     i, n = 0, len(s)
     while i < n:
@@ -267,20 +317,20 @@ def split_top(s):
             continue
         if ch == '(':
             d = 0
-            j = i
+            j = n
             instr = False
-            while j < n:
-                c = s[j]
+            for m in _SPECIAL.finditer(s, i):
+                c = m.group()
                 if c == '"':
                     instr = not instr
                 elif not instr:
                     if c == '(':
                         d += 1
-                    elif c == ')':
+                    else:
                         d -= 1
                         if d == 0:
+                            j = m.start()
                             break
-                j += 1
             out.append(s[i:j + 1])
             i = j + 1
         elif ch == '"':
